@@ -417,6 +417,21 @@ def keep_sites(rep, fl, fn, patterns, *args, **kw):
         rep.notes.extend(tmp.notes)
 
 
+def keep_rules(rep, fl, fn, rules, *args, rename=None, **kw):
+    """Like keep_sites, by rule id: keep the instances of `fn` whose rule id is in `rules` (renamed to `rename`)."""
+    from framework import Report
+    tmp = Report(rep.prop, rep.tier)
+    try:
+        fn(tmp, fl, *args, **kw)
+    finally:
+        for i in tmp.instances:
+            if i.verdict == "anchor-missing" or i.rule in rules:
+                if rename and i.rule in rules:
+                    i.rule = rename
+                rep.instances.append(i)
+        rep.notes.extend(tmp.notes)
+
+
 # which store-write obligations a property rests on (rule ids of _store_writes_all): a check reports only
 # what is a necessary condition of its own property, so that e.g. a change that loses the new
 # deadline of an update alarms C03 / C05 / C04 but not C02 or C18
@@ -427,7 +442,7 @@ STORE_WRITE_ASPECTS = {
     "C05": {"R03.5", "R05.2"},                              # stored deadline and expiry index move together
     "C06": {"R04.4"},                                       # what the policy admitted is stored
     "C08": {"R02.4", "R08.2", "R09.2"},                     # old value comes back out, refused value handed back
-    "C09": {"R09.2", "R02.5", "R03.5"},                     # guards, outcomes; TTL untouched on veto
+    "C09": {"R09.2", "R02.4", "R02.5", "R03.5"},            # guards, outcomes, value swapped only when accepted; TTL untouched on veto
     "C18": {"R18.3", "R09.2", "R02.5"},                     # same key, conflict test before every write
 }
 
@@ -1128,6 +1143,7 @@ def check_C05(rep, fl):
     check_sweeper(rep, fl)
     check_tick(rep, fl)
     check_store_writes(rep, fl)
+    check_time(rep, fl)   # "whose TTL has elapsed": the sweeper's verdict is Time::is_expired on the stored deadline
     import props_cache
     props_cache.check_policy_cost(rep, fl)   # "handed to on_evict .. with its .. charged cost"
     check_single_section(rep, fl, "R05.2", [EM + "::try_insert", EM + "::try_update", EM + "::try_remove", EM + "::try_cleanup"],
